@@ -696,6 +696,8 @@ fn spawn_peer<F: std::future::Future<Output = ()> + 'static + Send>(pt: &PTasks,
 enum Opened {
     Bi(ABidi),
     Uni(ASend),
+    /// a stream opened, written and finished by `sdm` (its type parameter is not `Bytes`): keeps the indices aligned
+    Done,
 }
 
 fn ids_of_bidi(b: &ABidi) -> String {
@@ -1188,6 +1190,49 @@ async fn scenario(cfg: Cfg, ops: Vec<String>) -> String {
                     }
                 }
             }
+            // sdm:<n>:<seed>:<cut>,<cut>…  the `Chain` variant of `sd`: a uni stream whose buffer type is the multi-chunk
+            // `e_c16::Chunks` is opened through the Connection, ONE DATA frame whose payload is cut at these positions
+            // is handed to send_data, poll_ready is awaited, the stream finished; the peer reads it with `pacc:uni:1`.
+            // Only when every stream opened before has been written (`otag`), so that the indices stay aligned.
+            "sdm" => {
+                use crate::e_c16::Chunks;
+                let (Some(n), Some(seed), Some(cuts)) = (num(1), num(2), p.get(3)) else { return "bad-op".into() };
+                if opened.iter().any(|(_, tagged)| !*tagged) {
+                    return "bad-op".into();
+                }
+                let whole = payload(n as usize, seed);
+                let mut at = vec![0usize];
+                for c in cuts.split(',') {
+                    let Ok(c) = c.parse::<usize>() else { return "bad-op".into() };
+                    if c <= *at.last().unwrap() || c >= n as usize {
+                        return "bad-op".into();
+                    }
+                    at.push(c);
+                }
+                at.push(n as usize);
+                let chunks = Chunks(at.windows(2).map(|w| whole.slice(w[0]..w[1])).collect());
+                let f = poll_fn(|cx| h3::quic::OpenStreams::<Chunks>::poll_open_send(&mut a, cx));
+                match tokio::time::timeout(OP_TIMEOUT, f).await {
+                    Err(_) => "sdm=timeout".into(),
+                    Ok(Err(e)) => format!("sdm=err:{}", stream_err(&e)),
+                    Ok(Ok(mut st)) => {
+                        let id = st.send_id().into_inner();
+                        opened.push((Opened::Done, true));
+                        let r = match st.send_data(WriteBuf::from(Frame::Data(chunks))) {
+                            Err(e) => Err(e),
+                            Ok(()) => match tokio::time::timeout(OP_TIMEOUT, poll_fn(|cx| st.poll_ready(cx))).await {
+                                Err(_) => return "sdm=write-timeout".into(),
+                                Ok(Err(e)) => Err(e),
+                                Ok(Ok(())) => poll_fn(|cx| st.poll_finish(cx)).await,
+                            },
+                        };
+                        match r {
+                            Ok(()) => format!("sdm={}", id),
+                            Err(e) => format!("sdm=err:{}@write", stream_err(&e)),
+                        }
+                    }
+                }
+            }
             "otag" => {
                 // every stream opened by `ob`/`ou` and not yet used gets one DATA frame (n + j bytes for
                 // the j-th opened stream) and is finished, the bidirectional ones through the UNSPLIT stream
@@ -1217,6 +1262,7 @@ async fn scenario(cfg: Cfg, ops: Vec<String>) -> String {
                                 Ok(Ok(())) => poll_fn(|cx| s.poll_finish(cx)).await,
                             },
                         },
+                        Opened::Done => Ok(()),
                     };
                     match r {
                         Ok(()) => cnt += 1,
